@@ -193,7 +193,7 @@ class Gen:
             return ("S", r.choice(["a", "b"]), r.choice(self.vals))
         if x < 0.85:
             return ("C", r.choice(["a", "b"]), r.choice(self.vars + ["undefined"]))
-        if x < 0.92 and self.arrays and not in_for:
+        if x < 0.92 and self.arrays and not in_for and self.cur < 0:   # never in functions: a loop may call them
             return ("P", r.choice(self.arrays), r.choice(self.vals))
         return ("E", "e%d" % self.ntag, [])
 
@@ -322,82 +322,108 @@ def run(ck):
     cases = directed(T)
     n_directed = len(cases)
     g = Gen(rng, T, vals or ["x"])
-    for _ in range(80000 if thorough else 12000):
+    for _ in range(150000 if thorough else 30000):
         defs, main, init = g.program(50)
         cases.append(("random", defs, main, init))
 
-    lines = [case_line(d, m, i) for (_, d, m, i) in cases]
-    m_out = ck.model(lines, timeout=900)
-    idx, impl_lines = [], []
-    for k, o in enumerate(m_out):
-        f = o.split("\t")
-        if len(f) != 5:
-            ck.broken.append("model driver: bad output %r on case %d" % (o[:80], k))
-            continue
-        idx.append(k)
-        impl_lines.append("R\t%s\t%s" % (f[0], enc_list(cases[k][3])))
-    i_out = ck.impl(impl_lines, timeout=900)
-
-    found = False
+    found_box = {"found": False, "eval": 0}
     nontriv = set()
     dist = {"kinds": {}, "class": {}, "functions": {}, "calls": {}, "returns": {}, "scoped_functions": {}, "instructions": {}}
     f6 = {"programs": 0, "spec_differs": 0, "witness": None}
     samples = []
-    for pos, (k, io_full) in enumerate(zip(idx, i_out)):
-        kind, defs, main, init = cases[k]
-        text, wf, kf6, spec, model = m_out[k].split("\t")
-        io = split_result(io_full)[0] if io_full.startswith("OK") else io_full
-        script_lines = dec_list(text)
-        acc = {"for": 0, "call": 0, "return": 0}
-        for d in defs:
-            count(d[3], acc)
-        count(main, acc)
-        dist["kinds"][kind] = dist["kinds"].get(kind, 0) + 1
-        for key, val in (("functions", len(defs)), ("calls", min(acc["call"], 12)), ("returns", min(acc["return"], 8)),
-                         ("scoped_functions", sum(1 for d in defs if d[1])), ("instructions", len(script_lines) // 10 * 10)):
-            dist[key][val] = dist[key].get(val, 0) + 1
-        bad = None
-        cls = None
-        if wf != "T":
-            bad = "generated program is outside the theorem's domain (wf_prog = F)"
-        elif spec in ("FUEL", "ERR", "RET") or model == "FUEL":
-            cls = "skipped (%s / %s)" % (spec[:4], model[:4])
-        elif kf6 == "T":
-            cls = "KnownF6"
-            f6["programs"] += 1
-            if io != model:
-                bad = "KnownF6 program: the model (which reproduces F6) and the implementation differ"
-            elif spec != model:
-                cls = "KnownF6, differs from the structured semantics"
-                f6["spec_differs"] += 1
-                if f6["witness"] is None or len(script_lines) < len(f6["witness"]["script"]):
-                    f6["witness"] = {"script": script_lines, "init": init, "spec": spec, "implementation": io}
-        else:
-            cls = "in domain"
-            nontriv.add((text, tuple(init)))
-            if spec != model:
-                bad = "extracted model and extracted spec (prog_run) disagree outside KnownF6"
-            elif io != model:
-                if not io_full.startswith("OK"):
-                    bad = "implementation stopped (%s) where the structured semantics runs to the end" % io_full[:40]
-                else:
-                    bad = "trace / final variables differ from the tree-walking interpreter"
-        if cls:
-            dist["class"][cls] = dist["class"].get(cls, 0) + 1
-        if bad:
-            found = True
-            if len(ck.violations) < 5:
-                ck.violation({"kind": bad, "case_kind": kind, "script": script_lines, "initial_variables": init,
-                              "known_f6": kf6, "spec(prog_run)": spec, "model(flat machine)": model, "implementation": io_full,
-                              "theorems": ["C05_sim"], "seed": ck.seed,
-                              "replay_cmd": "printf '%s\\n' | .cache/cargo-target/release/c05" % impl_lines[pos].replace("\t", "\\t")})
-        elif len(samples) < 3 and kind == "random" and cls == "in domain" and acc["call"] >= 3 and acc["return"] >= 2:
-            samples.append({"script": script_lines, "init": init})
+
+    def evaluate(cases):
+        lines = [case_line(d, m, i) for (_, d, m, i) in cases]
+        m_out = ck.model(lines, timeout=900)
+        idx, impl_lines = [], []
+        found_box["eval"] += len(cases)
+        for k, o in enumerate(m_out):
+            f = o.split("\t")
+            if len(f) != 5:
+                ck.broken.append("model driver: bad output %r on case %d" % (o[:80], k))
+                continue
+            idx.append(k)
+            impl_lines.append("R\t%s\t%s" % (f[0], enc_list(cases[k][3])))
+        i_out = ck.impl(impl_lines, timeout=900)
+
+        for pos, (k, io_full) in enumerate(zip(idx, i_out)):
+            kind, defs, main, init = cases[k]
+            text, wf, kf6, spec, model = m_out[k].split("\t")
+            io = split_result(io_full)[0] if io_full.startswith("OK") else io_full
+            script_lines = dec_list(text)
+            acc = {"for": 0, "call": 0, "return": 0}
+            for d in defs:
+                count(d[3], acc)
+            count(main, acc)
+            dist["kinds"][kind] = dist["kinds"].get(kind, 0) + 1
+            for key, val in (("functions", len(defs)), ("calls", min(acc["call"], 12)), ("returns", min(acc["return"], 8)),
+                             ("scoped_functions", sum(1 for d in defs if d[1])), ("instructions", len(script_lines) // 10 * 10)):
+                dist[key][val] = dist[key].get(val, 0) + 1
+            bad = None
+            cls = None
+            if wf != "T":
+                bad = "generated program is outside the theorem's domain (wf_prog = F)"
+            elif spec == "ERR" and model.startswith("STOP") and kf6 != "T":
+                # array_push on a variable that holds no array (e.g. invisible in a <scope> function)
+                cls = "command error (array_push without array)"
+                _, l, kindm = model.split(" ")
+                if not (io_full.startswith("CRASH") or io_full.startswith("ERROR %s " % l)):
+                    bad = "first error expected at line %s" % l
+            elif spec in ("FUEL", "ERR", "RET") or model == "FUEL":
+                cls = "skipped (%s / %s)" % (spec[:4], model[:4])
+            elif kf6 == "T":
+                cls = "KnownF6"
+                f6["programs"] += 1
+                if model.startswith("STOP"):
+                    # the model stops at the first Error (for-in entry stolen by another activation); the real
+                    # runner reports it and goes on: compare the line of the first error only
+                    _, l, kindm = model.split(" ")
+                    cls = "KnownF6, ends in an error"
+                    f6["spec_differs"] += 1
+                    if kindm.startswith("Error"):
+                        if not (io_full.startswith("CRASH") or io_full.startswith("ERROR %s " % l)):
+                            bad = "KnownF6 program: first error expected at line %s" % l
+                    elif not io_full.startswith("CRASH"):
+                        bad = "KnownF6 program: the model crashes at line %s, the implementation does not" % l
+                elif io != model:
+                    bad = "KnownF6 program: the model (which reproduces F6) and the implementation differ"
+                elif spec != model:
+                    cls = "KnownF6, differs from the structured semantics"
+                    f6["spec_differs"] += 1
+                    if f6["witness"] is None or len(script_lines) < len(f6["witness"]["script"]):
+                        f6["witness"] = {"script": script_lines, "init": init, "spec": spec, "implementation": io}
+            else:
+                cls = "in domain"
+                nontriv.add((text, tuple(init)))
+                if spec != model:
+                    bad = "extracted model and extracted spec (prog_run) disagree outside KnownF6"
+                elif io != model:
+                    if not io_full.startswith("OK"):
+                        bad = "implementation stopped (%s) where the structured semantics runs to the end" % io_full[:40]
+                    else:
+                        bad = "trace / final variables differ from the tree-walking interpreter"
+            if cls:
+                dist["class"][cls] = dist["class"].get(cls, 0) + 1
+            if bad:
+                found_box["found"] = True
+                if len(ck.violations) < 5:
+                    ck.violation({"kind": bad, "case_kind": kind, "script": script_lines, "initial_variables": init,
+                                  "known_f6": kf6, "spec(prog_run)": spec, "model(flat machine)": model, "implementation": io_full,
+                                  "theorems": ["C05_sim"], "seed": ck.seed,
+                                  "replay_cmd": "printf '%s\\n' | .cache/cargo-target/release/c05" % impl_lines[pos].replace("\t", "\\t")})
+            elif len(samples) < 3 and kind == "random" and cls == "in domain" and acc["call"] >= 3 and acc["return"] >= 2:
+                samples.append({"script": script_lines, "init": init})
+
+    all_cases = cases
+    evaluate(all_cases[:n_directed])
+    if not found_box["found"]:
+        evaluate(all_cases[n_directed:])
+    found = found_box["found"]
     if f6["spec_differs"] and f6_open:
         ck.known("F6 for-in iteration state is keyed by line, not by activation: %d of %d KnownF6 programs differ from the structured "
                  "semantics, e.g. %s" % (f6["spec_differs"], f6["programs"], " / ".join(f6["witness"]["script"])[:300]))
     ck.coverage.update({
-        "evaluations": len(idx),
+        "evaluations": found_box["eval"],
         "distinct_nontrivial": len(nontriv),
         "rule": "distinct (script text, initial variables) of well-formed programs outside KnownF6 on which spec and model run to the "
                 "end; trace and final variables compared between spec, model and the real SDK.  Directed part: every spelling of "
